@@ -863,6 +863,9 @@ func (e *Executor) Execute(ctx context.Context, m File) (err error) {
 			}
 		}
 	}
+	// The statements that were not applied yet may have been edited since the
+	// last attempt. Keep the revision in sync with the file it describes.
+	r.Total, r.Hash = len(stmts), hash
 	e.log.Log(LogFile{m, r.Version, r.Description, r.Applied})
 	if err := e.fileChecks(ctx, m, r); err != nil {
 		e.log.Log(LogError{Error: err})
@@ -895,8 +898,10 @@ func (e *Executor) Execute(ctx context.Context, m File) (err error) {
 		}
 		simPoint("exec:after-stmt-write")
 	}
-	// In case the file was applied successfully, clean out the partial revisions.
+	// In case the file was applied successfully, clean out the partial revisions
+	// and the error of a previous attempt (the failing statement may have been removed).
 	r.PartialHashes = nil
+	r.Error, r.ErrorStmt = "", ""
 	r.done()
 	return
 }
